@@ -126,3 +126,8 @@ var verifProbes = []string{
 	"/v1.0/items/7", "/v1x0/items/7", "/v1.0/items", "/v1.0/items/7/more", "/a b/3", "/a%20b/3", "/a+b/3", "/aab/3", "/x+y", "/xxy", "/x%2By",
 	"/a.json", "/aXjson", "/a(b)/1", "/ab/1", "/a$/1", "/a/1", "/é/1", "/%C3%A9/1", "/a,b;c/1", "/a%2Cb%3Bc/1", "a", "a/b",
 }
+
+// unchangedSinceRange(m): inside the invariant of a range loop over m, the map
+// still has the value it had when the range started (then the loop ends only
+// after every key was visited).
+func unchangedSinceRange[K comparable, V any](m map[K]V) bool { return true }
